@@ -334,6 +334,34 @@ class ConstGuardClient(flow.Client):
                         c0, a, b = children(v)
                         if any(callee_of(c)[1] == 'isConst' for c in calls_in(c0)) and strip(b)['kind'] == 'CXXNullPtrLiteralExpr':
                             continue
+                    # `if (decl && decl->getExpr()->isConst()) return decl;`: the return sits in the then-branch of a test whose
+                    # conjuncts include isConst() (no negation, no disjunction around it)
+                    par = {}
+                    for a_ in walk(g.body):
+                        for b_ in children(a_):
+                            par[id(b_)] = a_
+                    x_ = r
+                    guarded = False
+                    while id(x_) in par:
+                        p_ = par[id(x_)]
+                        if p_['kind'] == 'IfStmt' and len(children(p_)) > 1 and any(z is x_ for z in walk(children(p_)[1])) and children(p_)[1] is not None:
+                            c0 = children(p_)[0]
+                            conj = []
+
+                            def flat(y):
+                                y = strip(y)
+                                if y['kind'] == 'BinaryOperator' and y.get('opcode') == '&&':
+                                    for c_ in children(y):
+                                        flat(c_)
+                                else:
+                                    conj.append(y)
+                            flat(c0)
+                            if any(strip(y)['kind'] in ('CXXMemberCallExpr',) and callee_of(strip(y))[1] == 'isConst' for y in conj):
+                                guarded = True
+                                break
+                        x_ = p_
+                    if guarded:
+                        continue
                     good = False
                 if good:
                     self._filter_ids.add(g.id)
@@ -341,8 +369,39 @@ class ConstGuardClient(flow.Client):
                         self._filter_ids.add(g.defn.id)
         return self._filter_ids
 
+    def decl(self, d, s):
+        # `auto decl = constFilter(...)`: remember the variable, a later test of it decides like a test of the call
+        init = [c for c in children(d) if 'kind' in c]
+        if init and any(callee_of(c)[2] in self._filters() for c in calls_in(init[-1])):
+            self.__dict__.setdefault('filter_vars', set()).add(d['id'])
+        return flow.Client.decl(self, d, s)
+
+    def _tests_filter_var(self, e):
+        fv = self.__dict__.get('filter_vars', set())
+        x = strip(e)
+        neg = False
+        if x['kind'] == 'UnaryOperator' and x.get('opcode') == '!':
+            neg = True
+            x = strip(children(x)[0])
+        while x['kind'] in ('ImplicitCastExpr', 'ParenExpr') and children(x):
+            x = strip(children(x)[0])
+        if x['kind'] == 'DeclRefExpr' and (x.get('referencedDecl') or {}).get('id') in fv:
+            return True, neg
+        if x['kind'] == 'BinaryOperator' and x.get('opcode') in ('==', '!=') and len(children(x)) == 2:
+            a, b = [strip(c) for c in children(x)]
+            for u, v in ((a, b), (b, a)):
+                while u['kind'] in ('ImplicitCastExpr', 'ParenExpr') and children(u):
+                    u = strip(children(u)[0])
+                if u['kind'] == 'DeclRefExpr' and (u.get('referencedDecl') or {}).get('id') in fv and any(
+                        y['kind'] == 'CXXNullPtrLiteralExpr' for y in walk(v)):
+                    return True, (x['opcode'] == '==') != neg
+        return False, False
+
     def cond(self, e, s):
         has = any(callee_of(c)[1] == 'isConst' for c in calls_in(e))
+        tv, tneg = self._tests_filter_var(e)
+        if not has and tv:
+            return ([s], [True]) if tneg else ([True], [s])
         if not has and any(callee_of(c)[2] in self._filters() for c in calls_in(e)):
             # `if (auto decl = constFilter(symbol))`: non-null means constant
             x = strip(e)
